@@ -48,7 +48,11 @@ Record oracles := {
   o_check2822 : bool;                             (* the recipients' check_strict_rfc2822 setting (uniform in the harness: global filterconf) *)
   o_authperm : bool;                              (* auth_permitted(): a backend is configured (and, with forcesslauth, TLS is active) *)
   o_auth : bytes -> auth_result;                  (* the mechanism handler on the text behind "AUTH " *)
-  o_trace : bytes -> bytes -> bytes -> bool -> bytes -> N -> bytes   (* Received-SPF + Received lines: authname, helo, sender, esmtp, first recipient, relayclient *)
+  o_trace : bytes -> bytes -> bytes -> bool -> bytes -> N -> bytes;  (* Received-SPF + Received lines: authname, helo, sender, esmtp, first recipient, relayclient *)
+  o_submission : bool;                            (* submission_mode: TCPLOCALPORT is "587" *)
+  o_subm_date : bytes;                            (* the 31 octets date822() left in datebuf + 3 when the Received: line was written *)
+  o_subm_stamp : bytes;                           (* gettimeofday() as ultostr(tv_sec) "." ultostr(tv_usec) *)
+  o_msgidhost : bytes                             (* control/msgidhost (default: the HELO name of control/me) *)
 }.
 
 (** ---------- state ---------- *)
@@ -208,8 +212,10 @@ Definition dfinal (o : oracles) (l msg : bytes) (msgsize : N) (seen : list bytes
   if N.ltb (maxbytes o) msgsize then D_toobig l seen else D_eod msg msgsize seen.
 
 (** what smtp_data needs to know besides the reader: does the next write to qmail-queue fail, is the RfC 2822 header
-    check on (xmitstat.check2822 & 1), did the client declare 8-bit data, the accepted recipients (Delivered-To:) *)
-Record dcfg := { d_wfail : bool; d_chk : bool; d_dt : bool; d_rcpts : list bytes }.
+    check on (xmitstat.check2822 & 1), did the client declare 8-bit data, the accepted recipients (Delivered-To:),
+    submission mode and the variable pieces of the header fields it adds (xmitstat.mailfrom among them) *)
+Record dcfg := { d_wfail : bool; d_chk : bool; d_dt : bool; d_rcpts : list bytes;
+                 d_subm : bool; d_date : bytes; d_from : bytes; d_stamp : bytes; d_idhost : bytes }.
 
 Definition has8 (l : bytes) : bool := existsb (fun b => N.leb 128 b) l.
 (** check_rfc822_headers(): Date: / From: / Message-Id: (bits 1, 2, 4) *)
@@ -240,10 +246,19 @@ Fixpoint body_loop (fuel : nat) (o : oracles) (dc : dcfg) (r : rstate) (l msg : 
         end
   end.
 
+(** submission mode, after the header loop: the fields whose flag is not set are written with one writev(), in the
+    order Date, From, Message-Id: "Date: " datebuf+3 (32 octets: the date of the Received: line and its LF),
+    "From: <" xmitstat.mailfrom ">\n", "Message-Id: <" sec "." usec "@" msgidhost ">\n".  msgsize is not touched. *)
+Definition subm_additions (dc : dcfg) (hf : N) : bytes :=
+  (if N.eqb (N.land hf 1) 0 then SUBM_DATE_PFX ++ d_date dc ++ [LF] else [])
+  ++ (if N.eqb (N.land hf 2) 0 then SUBM_FROM_PFX ++ d_from dc ++ SUBM_FROM_END else [])
+  ++ (if N.eqb (N.land hf 4) 0 then SUBM_MSGID_PFX ++ d_stamp dc ++ SUBM_MSGID_AT ++ d_idhost dc ++ SUBM_MSGID_END else []).
+
 (** the header checks of one line that does not start with a dot: None = refused with 550,
-    Some (flags, flagr): new header flags, "may be a Received: or Delivered-To: line" *)
+    Some (flags, flagr): new header flags, "may be a Received: or Delivered-To: line".
+    They run when (xmitstat.check2822 & 1) || submission_mode. *)
 Definition hdr_check (dc : dcfg) (hf : N) (l : bytes) : option (N * bool) :=
-  if negb (d_chk dc) then Some (hf, true)
+  if negb (d_chk dc || d_subm dc) then Some (hf, true)
   else if has8 l then None
   else match known_hdr l with
        | Some bit => if N.eqb (N.land hf bit) 0 then Some (N.lor hf bit, false) else None
@@ -257,9 +272,13 @@ Fixpoint hdr_loop (fuel : nat) (o : oracles) (dc : dcfg) (r : rstate) (l msg : b
   | O => (D_stuck, r)
   | S f =>
       if is_dot l || N.ltb (maxbytes o) msgsize || Nat.eqb (length l) 0 || Nat.ltb MAXHOPS hops then
-        (* Date: and From: are required when the check is on *)
-        if d_chk dc && (N.eqb (N.land hf 1) 0 || N.eqb (N.land hf 2) 0) then (D_reject 550 l, r)
+        (* submission mode: the missing ones of Date, From, Message-Id are written (a writev() of nothing does not fail);
+           otherwise Date: and From: are required when the check is on *)
+        let add := if d_subm dc then subm_additions dc hf else [] in
+        if d_subm dc && d_wfail dc && negb (Nat.eqb (length add) 0) then (D_wfail l, r)
+        else if negb (d_subm dc) && d_chk dc && (N.eqb (N.land hf 1) 0 || N.eqb (N.land hf 2) 0) then (D_reject 550 l, r)
         else
+        let msg := msg ++ add in
         match l with
         | [] =>
             (* "\n" is written, msgsize += 2, next line, body loop *)
@@ -365,6 +384,11 @@ Definition relay_decide (o : oracles) (s : sstate) (cls : rclass) : bool * sstat
       else (N.eqb (relayclient s) 1, s, [])
   end.
 
+(** the gate of smtp_from in submission mode: the same is_authenticated() as for a recipient outside rcpthosts
+    (AUTH on this connection, or the relay list, cached in relayclient); on other ports there is no gate *)
+Definition subm_gate (o : oracles) (s : sstate) : bool * sstate * list event :=
+  if o_submission o then relay_decide o s RNotLocal else (true, s, []).
+
 Definition h_rcpt (o : oracles) (s : sstate) (arg : bytes) : list event * hres * sstate :=
   match o_addr o true arg with
   | AP_nobracket => ([], HEINVAL, s)
@@ -416,6 +440,16 @@ Definition h_from (o : oracles) (s : sstate) (arg : bytes) (linelen : nat) : lis
   let s := clear s in
   match o_addr o false arg with
   | AP_nobracket => ([], HEINVAL, s)
+  | apr =>
+  (* "if we are in submission mode we require authentication before any mail": is_authenticated(), before addrparse *)
+  let '(allowed, s, pre) := subm_gate o s in
+  match pre with
+  | _ :: _ => (pre, HEDONE, s)                        (* error reading the relay list: 421 written *)
+  | [] =>
+  if negb allowed then ([Reply 550], HEDONE, s)      (* "550 5.7.1 authentication required" *)
+  else
+  match apr with
+  | AP_nobracket => ([], HEINVAL, s)
   | AP_syntax => ([Reply 501], HEBOGUS, tarpit s)
   | AP_nouser => ([Reply 550], HEBOGUS, tarpit s)
   | AP_ok addr more _ =>
@@ -436,6 +470,8 @@ Definition h_from (o : oracles) (s : sstate) (arg : bytes) (linelen : nat) : lis
                     datatype := match body8 with Some b => b | None => false end; authname := authname s |})
           end
       end
+  end
+  end
   end.
 
 Definition h_data (fuel : nat) (o : oracles) (s : sstate) : list event * hres * sstate :=
@@ -453,7 +489,9 @@ Definition h_data (fuel : nat) (o : oracles) (s : sstate) : list event * hres * 
         let trace := o_trace o (authname s) (helostr s) (mailfrom s) (esmtp s) first (relayclient s) in
         let dc := {| d_wfail := match o_qq o k with QQ_die_early => true | _ => false end;
                      d_chk := N.eqb (check2822 s) 1; d_dt := datatype s;
-                     d_rcpts := map fst (filter (fun x => snd x) (rcpts s)) |} in
+                     d_rcpts := map fst (filter (fun x => snd x) (rcpts s));
+                     d_subm := o_submission o; d_date := o_subm_date o; d_from := mailfrom s;
+                     d_stamp := o_subm_stamp o; d_idhost := o_msgidhost o |} in
         let '(de, r') := data_loop fuel o dc (rd s) trace in
         let s' := set_rd s r' in
         match de with
